@@ -23,8 +23,8 @@ class TvmBitarray(bitarray):
 
     def __new__(cls, size: int = 1023, *args, **kwargs):
         # TON bit strings are written most significant bit first: an initializer whose buffer is little-endian
-        # keeps its bit sequence, not its buffer layout
-        kwargs.setdefault('endian', 'big')
+        # (or a request for a little-endian buffer) keeps the bit sequence, not the buffer layout
+        kwargs['endian'] = 'big'
         return super().__new__(cls, *args, **kwargs)
 
     def __init__(self, size: int = 1023, *args, **kwargs):
